@@ -237,7 +237,12 @@ impl SystemState {
                         .map(|p| p.id)
                         .max()
                         .unwrap_or_else(|| panic!("No partition found"));
-                    for i in 0..command.partitions_count {
+                    // the runtime clamps the count to the partitions the topic has
+                    let mut partitions_count = command.partitions_count;
+                    if partitions_count > last_partition_id {
+                        partitions_count = last_partition_id;
+                    }
+                    for i in 0..partitions_count {
                         topic.partitions.remove(&(last_partition_id - i));
                     }
                 }
